@@ -65,13 +65,23 @@ def _describe(r, why, exp=None):
     if r.get("panic"):
         return "%s: the real code panicked: %s on %s" % (k, r["panic"], json.dumps(_pretty(r))[:300])
     if k == "parse":
-        return "ParseUUID(%r): %s (accepted=%s value=%s)%s" % (_s(r["s"]), why, r["ok"], _hex(r["u"]),
+        call = {"parse": "ParseUUID(%r)", "text": "UnmarshalText(%r)", "json": "UnmarshalJSON of %r", "jsondec": "json.Unmarshal of %r"}[r.get("via", "parse")] % _s(r["s"])
+        if r.get("pre"):
+            call += " into a UUID that held %s" % _hex(r["pre"])
+        return "%s: %s (accepted=%s value=%s)%s" % (call, why, r["ok"], _hex(r["u"]),
                                                               (" required " + str(exp)) if exp is not None else "")
     return "%s: %s: %s%s" % (k, why, json.dumps(_pretty(r))[:500], (" required " + json.dumps(exp)[:300]) if exp is not None else "")
 
 
+VIA_NAME = {"parse": "parse", "text": "unmarshaltext", "json": "unmarshaljson", "jsondec": "jsondecode"}
+
+
+def _pfx(r):
+    return VIA_NAME.get(r.get("via", "parse"), "parse")
+
+
 def _input_id(r):
-    return json.dumps([r["k"]] + [r.get(x) for x in ("s", "u" if r["k"] in ("print", "rand", "now") else "-", "t", "clock", "node", "sec", "ns", "zone")])
+    return json.dumps([r["k"]] + [r.get(x) for x in ("via", "pre", "s", "u" if r["k"] in ("print", "rand", "now") else "-", "t", "clock", "node", "sec", "ns", "zone")])
 
 
 # ------------------------------------------------------------------ TLC sides
@@ -201,18 +211,20 @@ def run(ctx):
             judge(k + "-panic", r, "panic")
             continue
         if k == "parse":
+            pfx = _pfx(r)
             if c["cls"] == "reject":
                 if r["ok"]:
-                    judge("parse-accepts-" + c["why"], r, "accepted a string that is not 32 hex digits plus hyphens (%s)" % c["why"])
+                    judge(pfx + "-accepts-" + c["why"], r, "accepted a string that is not 32 hex digits plus hyphens (%s)" % c["why"])
             elif c["cls"] == "accept":
                 if not r["ok"]:
-                    judge("parse-rejects-wellformed", r, "rejected a well-formed UUID string")
+                    judge(pfx + "-rejects-wellformed", r, "rejected a well-formed UUID string")
                 elif r["u"] != c["val"]:
-                    judge("parse-value", r, "wrong value", _hex(c["val"]))
+                    judge(pfx + "-value", r, "wrong value", _hex(c["val"]))
             else:
-                gray["accepted" if r["ok"] else "rejected"] += 1
+                if r["via"] == "parse":
+                    gray["accepted" if r["ok"] else "rejected"] += 1
                 if r["ok"] and r["u"] != c["val"]:
-                    judge("parse-value", r, "wrong value", _hex(c["val"]))
+                    judge(pfx + "-value", r, "wrong value", _hex(c["val"]))
         elif k == "v1":
             checks = [("v1-layout", r["u"] == c["u"]), ("v1-version", r["ver"] == 1), ("v1-variant", r["varietf"]),
                       ("v1-timestamp", r["ts"] == c["t"]), ("v1-time", r["tsec"] == c["tsec"] and r["tns"] == c["tns"])]
@@ -260,7 +272,7 @@ def run(ctx):
         inputs.add(_input_id(r))
         vk[r["k"]] = vk.get(r["k"], 0) + 1
     for r, why in bad:
-        judge(("parse-" + why) if r["k"] == "parse" and not why.startswith("panic") else (r["k"] + "-panic" if why == "panic" else why), r, why)
+        judge((_pfx(r) + "-" + why) if r["k"] == "parse" and not why.startswith("panic") else (r["k"] + "-panic" if why == "panic" else why), r, why)
     for r, what in drift[:5]:
         ctx.add_drift("%s (%s)" % (what, json.dumps(_pretty(r))[:200]))
     ctx.log("recorded vectors judged by TLC: %d %s, rejected %d, drift %d" % (nval, vk, len(bad), len(drift)))
